@@ -397,6 +397,27 @@ theorem runFromO_seen (cfg : Cfg) (obs : Option StageObs) :
       · obtain ⟨⟨r, hr, hidx, hst⟩, ⟨sig, hsig⟩⟩ := ih (i + 1) _ j h
         exact ⟨⟨r, by simp [hr], hidx, hst⟩, ⟨sig, List.mem_append_right _ hsig⟩⟩
 
+/-- what every run establishes about the state after the loop: if as many stage results are COMPLETED as there are stages,
+    nothing was blocked (a blocked / failed stage never has a COMPLETED result and every stage has at most one result) -/
+theorem runFromO_consistent (cfg : Cfg) (obs : Option StageObs) (stages : List (Stage σ)) (x : σ) :
+    completedCount (runFromO cfg obs 0 stages ⟨x, 1, none⟩).1.results = stages.length →
+      (runFromO cfg obs 0 stages ⟨x, 1, none⟩).1.acc.blockedAt = none := by
+  rw [runFromO_transparent]
+  intro hc
+  have hshape := runFrom_shape cfg stages 0 ⟨x, 1, none⟩
+  have hall := runFrom_allCompleted cfg stages 0 ⟨x, 1, none⟩
+  unfold completedCount at hc
+  have hle := List.length_filter_le (fun r : StageRes σ => decide (r.status = .completed))
+    (runFrom cfg 0 stages ⟨x, 1, none⟩).results
+  have hfl : (List.filter (fun r : StageRes σ => decide (r.status = .completed))
+      (runFrom cfg 0 stages ⟨x, 1, none⟩).results).length
+      = (runFrom cfg 0 stages ⟨x, 1, none⟩).results.length := by omega
+  have hcomp : ∀ r ∈ (runFrom cfg 0 stages ⟨x, 1, none⟩).results, r.status = .completed := by
+    intro r hr
+    have := (List.length_filter_eq_length_iff.mp hfl) r hr
+    simpa using this
+  exact (hall hcomp).1
+
 /-! ### the stub behaviour alphabet used by the evaluated table (Gen/CascadeTable) -/
 
 /-- stage `i` of a pipeline described by (checkpoint, processor, handler, required): the same stub callbacks the
